@@ -4,6 +4,9 @@
 mod c15;
 mod c16;
 mod c17;
+mod c18;
+mod c19;
+mod c20;
 mod rp62_consts;
 mod util;
 
@@ -14,6 +17,9 @@ fn main() {
         "C15" => c15::run(&args),
         "C16" => c16::run(&args),
         "C17" => c17::run(&args),
+        "C18" => c18::run(&args),
+        "C19" => c19::run(&args),
+        "C20" => c20::run(&args),
         p => mck::report::machinery(&format!("h_crypto does not serve property {p:?}")),
     }
 }
